@@ -70,6 +70,103 @@ fn strs_probe(rep: &mut Report, seed: u64) {
     }
 }
 
+const SPECIAL_LIB: &str = r#"#[diplomat::bridge]
+#[diplomat::abi_rename = "sp_{0}"]
+mod ffi {
+    use diplomat_runtime::DiplomatWrite;
+    #[diplomat::opaque]
+    pub struct Num { pub v: i32 }
+    impl Num {
+        #[diplomat::attr(auto, constructor)]
+        pub fn new(v: i32) -> Box<Num> { Box::new(Num { v }) }
+        #[diplomat::attr(auto, comparison)]
+        pub fn cmp(&self, other: &Num) -> core::cmp::Ordering { self.v.cmp(&other.v) }
+        #[diplomat::attr(auto, getter = "value")]
+        pub fn value(&self) -> i32 { self.v }
+        #[diplomat::attr(auto, setter = "value")]
+        pub fn set_value(&mut self, v: i32) { self.v = v }
+        #[diplomat::attr(auto, indexer)]
+        pub fn at(&self, i: usize) -> Option<u8> { if i < 4 { Some((self.v as u32 >> (8 * i)) as u8) } else { None } }
+        #[diplomat::attr(auto, stringifier)]
+        pub fn to_string(&self, w: &mut DiplomatWrite) { use core::fmt::Write; let _ = write!(w, "num({})", self.v); }
+    }
+    pub struct Vec2 { pub x: i32, pub y: i32 }
+    impl Vec2 {
+        #[diplomat::attr(auto, add)]
+        pub fn add(self, o: Vec2) -> Vec2 { Vec2 { x: self.x + o.x, y: self.y + o.y } }
+        #[diplomat::attr(auto, sub)]
+        pub fn sub(self, o: Vec2) -> Vec2 { Vec2 { x: self.x - o.x, y: self.y - o.y } }
+        #[diplomat::attr(auto, mul)]
+        pub fn mul(self, o: Vec2) -> Vec2 { Vec2 { x: self.x * o.x, y: self.y * o.y } }
+        #[diplomat::attr(auto, div)]
+        pub fn div(self, o: Vec2) -> Vec2 { Vec2 { x: self.x / o.x, y: self.y / o.y } }
+    }
+}
+"#;
+
+const SPECIAL_DRIVER: &str = r#"#include <cstdio>
+#include "Num.hpp"
+#include "Vec2.hpp"
+int main() {
+  int vals[3] = {1, 2, 3};
+  for (int a : vals) {
+    auto x = Num::new_(a); auto y = Num::new_(2);
+    std::printf("cmp %d 2: %d == %d != %d < %d <= %d > %d >= %d\n", a, (int)x->cmp(*y), *x == *y, *x != *y, *x < *y, *x <= *y, *x > *y, *x >= *y);
+  }
+  auto n = Num::new_(0x04030201);
+  std::printf("value %d\n", n->value());
+  n->set_value(0x0a0b0c0d);
+  std::printf("value %d\n", n->value());
+  for (size_t i = 0; i < 5; i++) { auto b = (*n)[i]; if (b.has_value()) std::printf("at %zu some(%u)\n", i, (unsigned)b.value()); else std::printf("at %zu none\n", i); }
+  std::printf("str %s\n", n->to_string().c_str());
+  Vec2 p{7, 12}, q{2, 3};
+  Vec2 s = p + q, d = p - q, m = p * q, v = p / q;
+  std::printf("arith %d,%d %d,%d %d,%d %d,%d\n", s.x, s.y, d.x, d.y, m.x, m.y, v.x, v.y);
+  Vec2 acc{7, 12}; acc += q; std::printf("+= %d,%d\n", acc.x, acc.y); acc -= q; acc -= q; std::printf("-= %d,%d\n", acc.x, acc.y);
+  acc *= q; std::printf("*= %d,%d\n", acc.x, acc.y); acc /= q; std::printf("/= %d,%d\n", acc.x, acc.y);
+  return 0;
+}
+"#;
+
+const SPECIAL_EXPECTED: &str = "cmp 1 2: -1 == 0 != 1 < 1 <= 1 > 0 >= 0\ncmp 2 2: 0 == 1 != 0 < 0 <= 1 > 0 >= 1\ncmp 3 2: 1 == 0 != 1 < 0 <= 0 > 1 >= 1\nvalue 67305985\nvalue 168496141\nat 0 some(13)\nat 1 some(12)\nat 2 some(11)\nat 3 some(10)\nat 4 none\nstr num(168496141)\narith 9,15 5,9 14,36 3,4\n+= 9,15\n-= 5,9\n*= 10,27\n/= 5,9\n";
+
+/// special methods of the C++ API (comparison operators, accessors, indexer, stringifier, arithmetic and compound
+/// assignment): a fixed module with real bodies, called through the generated operators
+fn special_methods_probe(rep: &mut Report) {
+    let label = "(c02 probe special-methods)";
+    rep.oracle_runs += 1;
+    let d = e2e::crate_dir("C02s");
+    std::fs::create_dir_all(d.join("src")).unwrap();
+    let toml = "[package]\nname = \"ve2e\"\nversion = \"0.1.0\"\nedition = \"2021\"\n\n[workspace]\n\n[lib]\ncrate-type = [\"staticlib\"]\n\n[dependencies]\ndiplomat = { path = \"/repo/macro\" }\ndiplomat-runtime = { path = \"/repo/runtime\" }\n\n[profile.dev]\ndebug = false\n";
+    std::fs::write(d.join("Cargo.toml"), toml).unwrap();
+    let _ = std::fs::copy("/repo/Cargo.lock", d.join("Cargo.lock"));
+    std::fs::write(d.join("src/lib.rs"), format!("#![allow(warnings)]\n{SPECIAL_LIB}")).unwrap();
+    let (ok, _o, e) = util::run(std::process::Command::new("cargo").args(["build", "--offline", "--lib", "--message-format=short"]).env("CARGO_TARGET_DIR", d.join("target")).env_remove("RUSTFLAGS").env("CARGO_ENCODED_RUSTFLAGS", "").current_dir(&d));
+    if !ok {
+        rep.oracle_fail(label, "the special-methods module does not build with the real proc macro", json!({"diagnostics": e.lines().filter(|l| l.contains("error")).take(4).collect::<Vec<_>>()}));
+        return;
+    }
+    let o = tool::run_backend(SPECIAL_LIB, "cpp");
+    if !o.ok() {
+        rep.oracle_fail(label, "the C++ backend rejects the special-methods module", json!({"status": o.status()}));
+        return;
+    }
+    let dir = d.join("drv");
+    let _ = std::fs::remove_dir_all(&dir);
+    std::fs::create_dir_all(&dir).unwrap();
+    util::write_files(&dir, &o.files);
+    std::fs::write(dir.join("driver.cpp"), SPECIAL_DRIVER).unwrap();
+    let (ok, detail, t) = run_cpp(&dir, &d.join("target/debug/libve2e.a"), "c++17");
+    let got = t.join("\n") + "\n";
+    if !ok || got != SPECIAL_EXPECTED {
+        let diffs: Vec<String> = SPECIAL_EXPECTED.lines().zip(got.lines()).filter(|(a, b)| a != b).map(|(a, b)| format!("expected `{a}`, got `{b}`")).take(6).collect();
+        rep.count("probe:special:broken");
+        rep.oracle_fail(label, "an operator / accessor of the generated C++ class does not give the result of the Rust method it wraps", json!({"run": detail, "differences": diffs, "source": SPECIAL_LIB}));
+    } else {
+        rep.count("probe:special:ok");
+    }
+}
+
 pub fn main(args: &[String]) {
     let a = util::parse_args(args);
     let mut rep = Report::new("C02");
@@ -95,6 +192,7 @@ pub fn main(args: &[String]) {
     }
     for l in &labels { rep.case(l); }
     strs_probe(&mut rep, a.seed);
+    special_methods_probe(&mut rep);
     // model tie: the guard list of every method
     let lines: Vec<String> = cases.iter().map(|c| c.sexp().replacen("(c01 ", "(c02 ", 1)).collect();
     match crate::model::run_model("C02", &lines) {
